@@ -1,6 +1,7 @@
 package main
 
 import (
+	"path/filepath"
 	"encoding/json"
 	"fmt"
 	"os"
@@ -36,6 +37,7 @@ type xExpr struct {
 	Margs []string    `json:"margs,omitempty"` // message format arguments
 	Xs    []string    `json:"xs,omitempty"`    // filter / retain / multiParts dividers
 	S     string      `json:"s,omitempty"`     // prefix / suffix / style / tag / usage / nospace / suppress / list divider / sep
+	Opaque bool       `json:"opaque,omitempty"` // no model: only the model-free oracles apply (repeatable, equals a fresh value)
 	N     int         `json:"n,omitempty"`     // shift / multiPartsN
 	B     bool        `json:"b,omitempty"`     // unless
 	E     *xExpr      `json:"e,omitempty"`     // inner
@@ -57,7 +59,26 @@ type xCtx struct {
 	CI    bool     `json:"ci"`
 }
 
+var histFix string
+
+func histFixture() string {
+	if histFix == "" {
+		d, err := os.MkdirTemp("", "verif-hist")
+		must(err)
+		cleanups = append(cleanups, func() { os.RemoveAll(d) })
+		for _, n := range []string{"a.json", "b.yaml", "c.txt"} {
+			os.WriteFile(filepath.Join(d, n), []byte("x"), 0o644)
+		}
+		os.MkdirAll(filepath.Join(d, "sub"), 0o755)
+		histFix = d
+	}
+	return histFix
+}
+
 func (c xCtx) toContext() carapace.Context {
+	if c.Dir == "$HISTFIX" {
+		c.Dir = histFixture()
+	}
 	ctx := carapace.Context{Value: c.Value, Dir: c.Dir}
 	if c.Args != nil {
 		ctx.Args = append([]string{}, c.Args...)
@@ -119,6 +140,17 @@ func (b *builder) build(x *xExpr) carapace.Action {
 			carapace.Gen(cmd).FlagCompletion(carapace.ActionMap{"flag": carapace.ActionValues("f1")})
 			carapace.Gen(cmd).PositionalCompletion(carapace.ActionValues("p1"))
 			return carapace.ActionValues("gen")
+		})
+	case "cobrafiles":
+		// a cobra completion function that hands out the same slice on every call (cobra.FixedCompletions does)
+		persistent := []string{"json", "yaml"}
+		return carapace.ActionCobra(func(cmd *cobra.Command, args []string, toComplete string) ([]string, cobra.ShellCompDirective) {
+			return persistent, cobra.ShellCompDirectiveFilterFileExt
+		})
+	case "cobravalues":
+		persistent := []string{"one\tfirst", "two"}
+		return carapace.ActionCobra(func(cmd *cobra.Command, args []string, toComplete string) ([]string, cobra.ShellCompDirective) {
+			return persistent, cobra.ShellCompDirectiveNoSpace
 		})
 	case "regflag":
 		// a member that registers the completion of flag f<n> of the shared command while it runs
@@ -731,6 +763,13 @@ func genHistory(r *rng, tier string) interface{} {
 		for i := range ctxs {
 			ctxs[i].Env = []string{"OTHER=1", "VERIF_X=outer"}
 		}
+	}
+	if r.chance(5) {
+		// completion functions registered with cobra that hand out the same slice every time: the bridge must not write into it
+		in.Table = []*xExpr{{K: pick(r, []string{"cobrafiles", "cobrafiles", "cobravalues"}), Opaque: true}}
+		c := xCtx{Dir: "$HISTFIX", Value: pick(r, []string{"", "a", "o"})}
+		in.Steps = []historyStep{{E: 0, Ctx: c}, {E: 0, Ctx: c}, {E: 0, Ctx: c}}
+		return in
 	}
 	if r.chance(12) {
 		// captured-parameter probe: a modifier whose parameter lives in the closure is invoked with
